@@ -157,6 +157,8 @@ impl BackendRegistry {
         }
         let key = chunk_fingerprint(ctx.use_4state, ctx.contains_compiled_block, stmts);
         if let Some(artifact) = CHUNK_ARTIFACT_CACHE.lock().unwrap().get(&key) {
+            #[cfg(veryl_verif)]
+            crate::backend::inst::verif_cache_trace(format_args!("chunk-hit"));
             return Some(Arc::clone(artifact));
         }
         // Compile outside the lock; a concurrent peer may compile the same
